@@ -243,12 +243,93 @@ let handle_inc (rest : string list) : string =
        | Err -> "err" | Crash -> "crash" | OutOfFuel -> "outoffuel")
   | _ -> failwith "inc request"
 
+(* ---- C07: programs over local variables (Model/Eval.v) ---- *)
+let vtype_of = function
+  | "INTEGER" -> TInt | "FLOAT" -> TFloat | "STRING" -> TStr | "BOOL" -> TBool | "RTIME" -> TRTime
+  | "TIME" -> TTime | "IP" -> TIp | "BACKEND" -> TBackend | "ACL" -> TAcl | s -> failwith ("type " ^ s)
+let rexp_of = function
+  | Ls [At "lit"; At v] -> RLit (val_of v)
+  | Ls [At "var"; At x] -> RVar (nat_of_int (int_of_string x))
+  | x -> failwith ("bad rexp " ^ sexp_to_string x)
+let rec cexp_of = function
+  | Ls [At "op"; r] -> EOp (rexp_of r)
+  | Ls [At "not"; c] -> ENot (cexp_of c)
+  | Ls [At "infix"; At op; l; r] -> EInfix (bop_of op, cexp_of l, cexp_of r)
+  | x -> failwith ("bad cexp " ^ sexp_to_string x)
+let rec pstmt_of = function
+  | Ls [At "decl"; At x; At t] -> PDeclare (nat_of_int (int_of_string x), vtype_of t)
+  | Ls [At "set"; At x; At op; r] -> PSet (nat_of_int (int_of_string x), aop_of op, rexp_of r)
+  | Ls [At "if"; c; Ls t; Ls elifs; e] ->
+      PIf (cexp_of c, List.map pstmt_of t,
+           List.map (function Ls [c'; Ls b] -> (cexp_of c', List.map pstmt_of b) | _ -> failwith "elif") elifs,
+           (match e with At "_" -> None | Ls b -> Some (List.map pstmt_of b) | _ -> failwith "else"))
+  | Ls [At "switch"; r; Ls cases; d] ->
+      let case_of = function
+        | Ls [t; Ls body; At ft] ->
+            let t' = (match t with
+                      | At "_" -> None
+                      | Ls [At "eq"; Sq h] -> Some (false, str_of_hex h)
+                      | Ls [At "re"; Sq h] -> Some (true, str_of_hex h)
+                      | _ -> failwith "case test") in
+            ((t', List.map pstmt_of body), ft = "1")
+        | _ -> failwith "case" in
+      PSwitch (rexp_of r, List.map case_of cases,
+               (match d with At "_" -> None | At n -> Some (nat_of_int (int_of_string n)) | _ -> failwith "default"))
+  | x -> failwith ("bad pstmt " ^ sexp_to_string x)
+
+(* oracles the generator keeps decidable by construction: patterns ^lit, lit$, lit over [A-Za-z0-9./ -];
+   strings that are canonical dotted quads are IPv4 addresses, strings without a digit are not *)
+let bytes_to_string (l : byte list) : string =
+  String.init (List.length l) (fun i -> Char.chr (int_of_n (b2n (List.nth l i))))
+let simple_re (pat : byte list) (subj : byte list) : bool option =
+  let p = bytes_to_string pat and s = bytes_to_string subj in
+  let plain t = String.length t > 0 && (let ok = ref true in String.iter (fun c ->
+      if not ((c >= 'a' && c <= 'z') || (c >= 'A' && c <= 'Z') || (c >= '0' && c <= '9') || c = '/' || c = ' ' || c = '-') then ok := false) t; !ok) in
+  let n = String.length p in
+  let contains t = let lt = String.length t and ls = String.length s in
+    let r = ref false in for i = 0 to ls - lt do if String.sub s i lt = t then r := true done; !r in
+  if n > 1 && p.[0] = '^' && plain (String.sub p 1 (n - 1)) then
+    (let t = String.sub p 1 (n - 1) in Some (String.length s >= String.length t && String.sub s 0 (String.length t) = t))
+  else if n > 1 && p.[n - 1] = '$' && plain (String.sub p 0 (n - 1)) then
+    (let t = String.sub p 0 (n - 1) in
+     Some (String.length s >= String.length t && String.sub s (String.length s - String.length t) (String.length t) = t))
+  else if plain p then Some (contains p)
+  else failwith ("regex oracle: pattern outside the decidable class: " ^ p)
+let simple_ip (s : byte list) : addr option =
+  let t = bytes_to_string s in
+  if String.contains t ':' then failwith ("ip oracle: IPv6-like string outside the decidable class: " ^ t) else
+  match String.split_on_char '.' t with
+  | [a; b; c; d] ->
+      (* Go's net.ParseIP: decimal octets without leading zeros, each <= 255 *)
+      let num x =
+        if x = "" || String.length x > 3 || (String.length x > 1 && x.[0] = '0') then None
+        else if not (String.for_all (fun ch -> ch >= '0' && ch <= '9') x) then None
+        else (let v = int_of_string x in if v > 255 then None else Some v) in
+      (match num a, num b, num c, num d with
+       | Some a, Some b, Some c, Some d -> Some { afam = V4; abits = n_of_int (((a * 256 + b) * 256 + c) * 256 + d) }
+       | _ -> None)
+  | _ -> None
+
+let handle_prog (rest : string) : string =
+  match parse_sexps rest with
+  | [Ls stmts] ->
+      let prog = List.map pstmt_of stmts in
+      let show st store =
+        st ^ String.concat "" (List.map (fun (x, v) -> Printf.sprintf " %d=%s" (int_of_nat x) (show_val v))
+                                 (List.sort (fun (a, _) (b, _) -> compare (int_of_nat a) (int_of_nat b)) store)) in
+      (match exec_block simple_ip simple_re prog [] with
+       | Done s -> show "ok" s
+       | Failed s -> show "err" s
+       | Panicked -> "crash")
+  | _ -> failwith "prog request"
+
 let handle (req : string) : string =
   match split_on ' ' req with
   | ("acl" | "aclspec" | "aclold" as w) :: rest -> handle_acl w rest
   | "cell" :: rest -> handle_cell rest
   | "sim" :: rest -> handle_sim (String.concat " " rest)
   | "inc" :: rest -> handle_inc rest
+  | "prog" :: rest -> handle_prog (String.concat " " rest)
   | _ -> failwith "unknown request"
 
 let () = Common.serve handle
